@@ -27,6 +27,13 @@ Definition memb (c : byte) (l : list byte) : bool := existsb (Nat.eqb c) l.
 (* strchr(set, c) != NULL.  The terminator belongs to the string: strchr(set, '\0') is not NULL. *)
 Definition strchr_hit (set : list byte) (c : byte) : bool := (c =? 0) || memb c set.
 
+(* the test selecting one arm of the conversion dispatch of print_to_with.  Two source forms:
+     if (strchr("diouxX", *fmt)) { ... }     the NUL hits too           (print_dispatch_nul_hits = true)
+     switch ( *fmt ) { case 'd': case 'i': ... } the NUL goes to default  (print_dispatch_nul_hits = false)
+   A switch runs exactly one arm; its labels are pairwise distinct (C requires it), so it is the chain of
+   independent tests over the label sets. *)
+Definition arm_hit (set : list byte) (c : byte) : bool := (print_dispatch_nul_hits && (c =? 0)) || memb c set.
+
 Inductive res (A : Type) : Type :=
 | Ok (a : A)
 | Crash          (* an index outside the format text / the piece buffer was touched *)
@@ -239,8 +246,8 @@ Definition exec (t : token) (args : list V) (st : pstate) : pstate + pstate :=
       let fmt_with kd := do_format p (Some (kd, a)) (render p kd a) in
       step_if (c =? CH_p) (fmt_with KPtr)
       (step_if (c =? CH_c) (fmt_with KInt)
-      (step_if (strchr_hit print_float_convs c) (fmt_with KFloat)
-      (step_if (strchr_hit print_int_convs c) (fmt_with KInt)
+      (step_if (arm_hit print_float_convs c) (fmt_with KFloat)
+      (step_if (arm_hit print_int_convs c) (fmt_with KInt)
       (step_if (c =? CH_s) (fmt_with KStr)
       (step_if (c =? DOLLAR) (do_show a)
       (inl st1))))))
